@@ -23,9 +23,15 @@ CHECKS = {
  "C05": ("exhaustive type-directed enumeration of all well-typed terms up to a size bound over all types up to a constructor bound, each built on the real nodes with pinned arrows and executed on the real Bit Machine with every input value in 17 placement contexts, judged by a big-step evaluator",
          "All terms with <=4/5 nodes for every arrow A->B over the 11/51 types with <=2/3 constructors (iden, unit, injl/r, take, drop, comp through every mid type, case, pair, assertl/r, fail, witness of every value, words, verify), every input value; terms of <=3/4 nodes additionally at read offsets 1..7, write offsets 1..7, inside reused dirty frames and with output copied from a dirty frame; 153 arithmetic/logic/comparison jets against a hand-written table (exhaustive up to 16/20 input bits, 14 corner values per operand above) at 4 placements; disconnect with 3 left shapes x all small right branches (CMR of the branch re-hashed from scratch). Verdict kind (assertion / fail node / jet) and output value compared on every execution.",
          "Trusts the big-step evaluator and the jet table (the table is itself compared with the C jets here). Hash, secp and introspection jet semantics are not covered (C06 compares those with C).", "5/C05"),
+ "C06": ("exhaustive differential enumeration: every (program, witness assignment, environment) triple of the population is executed by the Rust Bit Machine and by libsimplicity's evaluator on the re-decoded serialisation, sharing one marshalled environment",
+         "Every Elements program with <=4/5 nodes (alphabet with witness, assertions, disconnect, case, words, verify, lock_time, current_index, eq_32) x all witness assignments x 6/all environments; comp (comp witness j) unit for all 471 jets x corner witnesses x every 4th/all of ~80 one-deviation environments (verdict classes ok/assertion/jet failure); and comp witness j as a bare expression for all 471 jets: the output bits of both evaluators must be equal.",
+         "The C evaluator is the reference. Programs with fail nodes are outside (C refuses them).", "5/C06"),
  "C07": ("the executions of C05 (all terms x inputs x placements, success and failing paths) re-run on a machine instrumented with high-water marks, plus nesting towers and magnitude macro-cases",
          "Same term space as C05 plus comp/disconnect towers of depth <=4/6 around every small term; cells used <= |A|+|B|+extra_cells and frames used <= extra_frames+2 on every execution; 8/16 pair-doubling depths x 4 tails: programs whose bounds exceed the hard limits must be refused by BitMachine::for_program without the allocation being attempted (allocation meter), accepted ones must run inside their buffer.",
          "Relies on hook H1 (two counters in new_write_frame) and on debug assertions / overflow checks being enabled in the harness build.", "5/C07"),
+ "C08": ("exhaustive enumeration of (program, witness assignment) pairs whose run succeeds, each pruned on the real library and judged by an oracle chain ending in libsimplicity's evaluator with all anti-DoS checks",
+         "Every Core and Elements program with <=4/5 nodes x witness assignments, plus selector gadgets (a sum-typed witness feeding a case over 9 type pairs x branch menus, every witness value; the same case node under two parents with every pair of witness values; nested selectors): prune succeeds, CMR equal, same output, every pruned witness is of its node's type, re-encodes and re-decodes, pruning again is the identity, and (Elements) C decode + evalTCOExpression(CHECK_ALL) == NoError.",
+         "C's anti-DoS verdict is the reference for 'no unexecuted node/branch remains'. One base environment.", "5/C08"),
  "C09": ("explicit-state breadth-first search over the conversion graph of node kinds (state = history replayed on fresh real objects, canonical key = representation + hidden set + branch attachment) with the CMR invariant checked in every state; exhaustive re-hashing of every node of every constructible DAG from tag strings; exhaustive hiding of every node; population-wide injectivity",
          "All constructible DAGs with <=5 nodes (Core: 23-symbol alphabet; Elements: 18): every node's CMR equals SHA-256 compression over IVs recomputed from the tag strings, before and after inference, and the root is unchanged by hiding any node (thorough: any pair). For every program with <=4/5 nodes a BFS of depth 4/5 over 14 transitions (finalize_types, finalize_unpruned, CommitNode::finalize, unfinalize, unfinalize_types, to_construct_node, Named round trip, encode/decode, change witness, attach/detach branches, hide case children). Injectivity over all constructible DAGs with <=4/5 nodes.",
          "Trusts the from-scratch SHA-256 and the published CMR formulas; jet CMRs are atoms here. No cryptographic claim beyond the enumerated population.", "5/C09"),
@@ -35,6 +41,9 @@ CHECKS = {
  "C11": ("exhaustive pairwise (and triple-wise) comparison of all (value, history) productions per type against reference denotations",
          "All ordered pairs of productions of every type with <=2/3 constructors (plus small words and unequal sums), across 17 histories, for ==, cmp, partial_cmp, hash and Word; all triples for transitivity on the smaller types; cross-type pairs on constructor representatives.",
          "Hash compared with SipHasher default keys; types beyond the bound only on corner values.", "5/C11"),
+ "C12": ("exhaustive enumeration of (witness node type, position, candidate value, route) cases through the public finalisation/decoding routes, each accepted program re-decoded and executed",
+         "Witness node types: all types with <=2/3 constructors plus 2^8, 2^32, 1+2^8 (forced by principal typing through a consumer that destructs the type); witness on an executed and on a later-pruned branch; candidates: every value (corner values when wide) of every one of those types; routes finalize_unpruned, finalize_pruned, human-readable witness map (both), RedeemNode::decode.",
+         "Accepted programs are judged by is_of_type on every witness, a re-decode of their own serialisation and an instrumented execution.", "5/C12"),
  "C13": ("explicit-state exploration of the real BitIter (state = full internal state) over every 2/3-byte stream, plus exhaustive enumeration of writer op sequences, naturals, bit strings and windows against a Vec<bool> model",
          "Every reachable reader state over every byte string of the bound length is visited and an invariant plus model agreement is evaluated on every transition; all writer histories to depth 3/4, all naturals to 2^16/2^22 and around every power of two, all windows over <=3-byte slices. Exhaustive within those bounds, so any cursor/offset/refill bug that manifests on a stream of <=3 bytes is found.",
          "Trusts the 80-line Vec<bool> reference model and the recursive definition of the natural code; streams longer than 3 bytes are not explored.", "5/C13"),
